@@ -286,6 +286,25 @@ fn c01_e2e_complete(n: usize) {
     kani::assert(res == Ok(s_ep == e), "VERIF:C01,C08:every honestly built proof in which any subset of a retained set's signers with sufficient combined weight has signed is accepted");
     kani::cover!(true, "VERIF:reach:honest proof accepted end to end");
 }
+// HARNESS props=C01,C08 tier=thorough profile=gw_e2e4 shape="end to end, N=4"
+#[kani::proof]
+fn c01_end_to_end_n4() {
+    let o = c01_e2e(4);
+    kani::cover!(o == 1, "VERIF:reach:proof accepted end to end");
+    kani::cover!(o == 0, "VERIF:reach:proof refused end to end");
+}
+// HARNESS props=C01,C08 tier=thorough profile=gw_e2e5 shape="end to end, N=5"
+#[kani::proof]
+fn c01_end_to_end_n5() {
+    let o = c01_e2e(5);
+    kani::cover!(o == 1, "VERIF:reach:proof accepted end to end");
+    kani::cover!(o == 0, "VERIF:reach:proof refused end to end");
+}
+// HARNESS props=C01,C08 tier=quick profile=gw_e2e3 mode=strict shape="end to end completeness, N=3, every signing subset mask"
+#[kani::proof]
+fn c01_end_to_end_complete_n3() {
+    c01_e2e_complete(3)
+}
 // HARNESS props=C01,C08 tier=quick profile=gw_e2e2 mode=strict shape="end to end completeness, N=2, every signing subset mask"
 #[kani::proof]
 fn c01_end_to_end_complete_n2() {
